@@ -57,11 +57,20 @@ CLAIMED.update({
     "C15": ("E1 kani-cbmc", "9.3 C15", "from_term(to_term(v)) == v for all values of i8..i64, u8..u64, f32, f64, bool, char, (), Option<i64>, (i64,u8); wire trip: "
             "reference bytes of the value's width class -> real decoder -> real deserializer must give the value back.", E1T),
 })
+for _k in ("C09", "C13"):      # built, but no harness beyond the trivial one finishes: not claimed (see NA)
+    CLAIMED.pop(_k, None)
 NA = {
     "C06": "the receive dispatch is inlined in `async fn Connection::receive_message` over FramedTransport::read (tokio net + timer): any harness "
            "from which it is reachable makes Kani's compiler fail (runtime-context thread-local -> catch_unwind), and an async stub of the "
            "transport cannot be constructed outside tokio; the synchronous components it calls are covered by C02 (fragment headers), C09 "
            "(assembler) and C01/C03 (terms), but exactly-once/in-order delivery across calls is not decidable with this technique here",
+    "C09": "FragmentAssembler keeps sequences in a HashMap<SequenceId, FragmentedMessage>; hashbrown's probe loops over heap-stored control bytes "
+           "(which CBMC treats as symbolic) did not finish for any harness with more than one fragment (900 s, 5 GB each; bounded probe loops "
+           "did not help). The harnesses are kept in harness/src/c09.rs; only the single-fragment case is decided, which is not a claim. The "
+           "reversed concatenation order of reassemble() (ascending fragment id, the protocol counts down) was seen by reading and is pinned by "
+           "the repository's own tests, but is not decided by a check",
+    "C13": "decode_borrowed (parse_*_borrowed with the ParsingContext path bookkeeping) exhausts memory under CBMC even alone on a 3-byte input "
+           "(all 40 harnesses killed at >6 GB), so neither the two-decoder comparison nor the chain through the reference finishes",
     "C14": "the distribution-header writer keys HashSet<&Atom>/HashMap<&Atom,u8> by atoms (SipHash over symbolic strings, iteration order) and the "
            "reader mutates a 256-slot HashMap cache across messages; harnesses over these did not finish under CBMC within the budget of this round",
     "C07": "frame assembly is inline in async fns writing to a concrete tokio OwnedWriteHalf; no seam a symbolic executor can observe; "
